@@ -392,6 +392,9 @@ func (ds *Dataset) StoreEntitiesWithTransaction(
 				if IsEntityEqual(prevLocalJSON, jsonData, prevLocalEntity, e) {
 					isDifferentLocally = false
 				}
+				// the version written earlier in this batch is the current version of the entity,
+				// so it alone decides whether this element is a change
+				isDifferent = isDifferentLocally
 
 			} else {
 				isDifferentLocally = false
